@@ -1,0 +1,144 @@
+//go:build verif
+
+// Contracts for the verif framework (/verif). Comment-only: this file
+// declares nothing and is compiled only with -tags=verif.
+
+package goproxytest
+
+//@ property C20: (*Server).handler, handler$1, allHex, readArchive$1, readArchive$1$1
+
+// libraries the handler delegates to (assumed; see DESIGN section 5 C20)
+//@ extern golang.org/x/mod/module.UnescapePath(escaped) (path, err)
+//@   pure
+//@ extern golang.org/x/mod/module.UnescapeVersion(escaped) (v, err)
+//@   pure
+//@ pure func moduleCheckOK(path string, version string) bool
+//@ pure func pseudoVersion(v string) bool
+//@ extern golang.org/x/mod/module.Check(path, version) (err)
+//@   pure
+//@   ensures (err == nil) == moduleCheckOK(path, version)
+//@ extern golang.org/x/mod/semver.Compare(v, w) (r)
+//@   pure
+//@ extern fmt.Fprintf(w, format, a) (n, err)
+//@   modifies gBodyWrites
+//@   ensures gBodyWrites == old(gBodyWrites) + 1
+//@ extern (*github.com/rogpeppe/go-internal/par.Cache).Do(c, key, f) (r)
+//@   pure
+//@ extern archive/zip.NewWriter(w) (z)
+//@   pure
+//@   ensures z != nil
+//@ extern (*archive/zip.Writer).Create(w, name) (f, err)
+//@   modifies gZipEntries
+//@   ensures gZipEntries == old(gZipEntries) + 1
+//@ extern (*archive/zip.Writer).Close(w) (err)
+//@   pure
+//@ extern (io.Writer).Write(w, p) (n, err)
+//@   modifies gZipWrites
+//@   ensures gZipWrites == old(gZipWrites) + 1
+//@ extern (error).Error(e) (r)
+//@   pure
+// thin local versions (bounds only; the global ones carry search semantics not needed here)
+//@ extern strings.Index(s, substr) (r)
+//@   pure
+//@   ensures -1 <= r && r + len(substr) <= len(s)
+//@ extern strings.LastIndex(s, substr) (r)
+//@   pure
+//@   ensures -1 <= r && r + len(substr) <= len(s)
+
+//@ func (*Server).readArchive
+//@   trusted
+//@   pure
+//@ func (*Server).findHash
+//@   trusted
+//@   pure
+//@ func isPseudoVersion
+//@   trusted
+//@   pure
+//@   names (r)
+//@   ensures r == pseudoVersion(v)
+//@ func allHex
+//@   pure
+//@   names (r)
+//@   ensures r ==> (forall K {at(rev,K)} :: lo(rev) <= K && K < hi(rev) ==> ('0' <= at(rev,K) && at(rev,K) <= '9') || ('a' <= at(rev,K) && at(rev,K) <= 'f'))
+//@   loop 1: invariant forall K {at(rev,K)} :: lo(rev) <= K && K < lo(rev) + rangeint ==> ('0' <= at(rev,K) && at(rev,K) <= '9') || ('a' <= at(rev,K) && at(rev,K) <= 'f')
+//@   loop 1: invariant 0 <= rangeint && rangeint < len(rev)
+
+// The zip closure: an entry is created only for a stored file whose name does not
+// start with a dot, and what is written into it is exactly that file's data.
+//@ func handler$1
+//@   requires a != nil
+//@   modifies gZipEntries, gZipWrites
+//@   at call (*zip.Writer).Create#1: requires !(len(f.Name) >= 1 && f.Name[0] == '.')
+//@   at call (io.Writer).Write#1: requires sameSlice(p, f.Data)
+//@   at call (*zip.Writer).Create#1: requires len(name) == len(path) + len(vers) + len(f.Name) + 2
+//@   at call (*zip.Writer).Create#1: requires forall K {at(name,K)} :: lo(name) <= K && K < lo(name) + len(path) ==> at(name,K) == at(path, lo(path) + (K - lo(name)))
+//@   at call (*zip.Writer).Create#1: requires at(name, lo(name) + len(path)) == '@' && at(name, lo(name) + len(path) + 1 + len(vers)) == '/'
+//@   at call (*zip.Writer).Create#1: requires forall K {at(name,K)} :: lo(name) + len(path) + 1 <= K && K < lo(name) + len(path) + 1 + len(vers) ==> at(name,K) == at(vers, lo(vers) + (K - lo(name) - len(path) - 1))
+//@   at call (*zip.Writer).Create#1: requires forall K {at(name,K)} :: lo(name) + len(path) + len(vers) + 2 <= K && K < hi(name) ==> at(name,K) == at(f.Name, lo(f.Name) + (K - lo(name) - len(path) - len(vers) - 2))
+//@   loop 1: invariant -1 <= rangeindex
+
+// handler: 404 for anything that is not /mod/<path>/@v/<file>, for undecodable
+// paths and versions, for missing archives, unknown extensions and empty lists;
+// .info / .mod answer with the data of the first stored file of that name and
+// nothing else; list prints only versions of this path that are not pseudo-versions
+// and pass module.Check; the handler writes no field of the Server.
+//@ func (*Server).handler
+//@   requires srv != nil && r != nil && r.URL != nil && gStatus == 0
+//@   assume_typeasserts
+//@   callee srv.logf(format, args) (): pure
+//@   modifies gStatus, gBodyWrites
+//@   at call fmt.Fprintf#1: requires m.Path == path && unboxStr(at(a, lo(a))) == m.Version && !pseudoVersion(m.Version) && moduleCheckOK(m.Path, m.Version)
+//@   at call (net/http.ResponseWriter).Write#1: requires f.Name == want && sameSlice(b, f.Data) && gBodyWrites == old(gBodyWrites)
+//@   at call (net/http.ResponseWriter).Write#1: requires forall K {at(my_a.Files,K)} :: lo(my_a.Files) <= K && K < lo(my_a.Files) + rangeindex ==> at(my_a.Files,K).Name != want
+//@   loop 1: invariant -1 <= rangeindex && gStatus == old(gStatus) && gBodyWrites == old(gBodyWrites) + n && n >= 0
+//@   loop 2: invariant -1 <= rangeindex && gStatus == old(gStatus) && gBodyWrites == old(gBodyWrites)
+//@   loop 3: invariant -1 <= rangeindex && gStatus == old(gStatus) && gBodyWrites == old(gBodyWrites)
+//@   loop 3: invariant forall K {at(a.Files,K)} :: lo(a.Files) <= K && K <= lo(a.Files) + rangeindex ==> at(a.Files,K).Name != want
+//@   ensures gStatus == 404 ==> gBodyWrites == old(gBodyWrites)
+//@   ensures gBodyWrites <= old(gBodyWrites) + 1 || gStatus == old(gStatus)
+//@   ensures gBodyWrites > old(gBodyWrites) || gStatus != 0
+
+// Archive loading: the .txtar file is tried first, the .txt file only when the first
+// does not exist, the directory only when neither exists; any other error gives nil.
+//@ pure func notExist(err error) bool
+//@ extern os.IsNotExist(err) (r)
+//@   pure
+//@   ensures r == notExist(err)
+//@   ensures err == nil ==> !r
+//@ extern golang.org/x/tools/txtar.ParseFile(file) (a, err)
+//@   modifies gParsed
+//@   ensures gParsed == old(gParsed) + 1
+//@   ensures err == nil ==> a != nil
+//@ extern path/filepath.WalkDir(root, fn) (err)
+//@   modifies gWalked
+//@   ensures gWalked == old(gWalked) + 1
+//@ func readArchive$1
+//@   requires srv != nil
+//@   names (r)
+//@   callee srv.logf(format, args) (): pure
+//@   modifies gParsed, gWalked, new F_S_txtar_Archive_*
+//@   at call txtar.ParseFile#1: requires file == txtarName && gParsed == old(gParsed)
+//@   at call txtar.ParseFile#2: requires file == txtName && gParsed == old(gParsed) + 1 && notExist(err)
+//@   at call filepath.WalkDir#1: requires root == name && gParsed == old(gParsed) + 2 && notExist(err)
+//@   ensures gParsed >= old(gParsed) + 1
+// The directory walk: the file read is the one being visited; directories add nothing.
+//@ pure func isDirEntry(e int) bool
+//@ extern (io/fs.DirEntry).IsDir(e) (r)
+//@   pure
+//@   ensures r == isDirEntry(e)
+//@ extern path/filepath.ToSlash(p) (r)
+//@   pure
+//@ pure func fileContent(name int) int
+//@ extern os.ReadFile(name) (data, err)
+//@   modifies new bytes
+//@   ensures data == nil || fresh(data)
+//@   ensures err == nil ==> sid(data) == fileContent(sid(name))
+//@ func readArchive$1$1
+//@   requires a != nil
+//@   names (r)
+//@   modifies F_S_txtar_Archive_Files, H_S_txtar_File
+//@   at call os.ReadFile#1: requires name == path && !isDirEntry(entry) && err == nil
+//@   ensures err != nil ==> r != nil && sameSlice(a.Files, old(a.Files))
+//@   ensures isDirEntry(entry) ==> sameSlice(a.Files, old(a.Files))
+//@   ensures r == nil && !isDirEntry(entry) ==> len(a.Files) == old(len(a.Files)) + 1
+//@   ensures r == nil && !isDirEntry(entry) ==> sid(at(a.Files, hi(a.Files) - 1).Data) == fileContent(sid(path))
